@@ -21,6 +21,7 @@ type Case struct {
 	RetryMax     int     `json:"retry_max"`
 	Script       []Sym   `json:"script,omitempty"`
 	NParts       int     `json:"nparts,omitempty"` // AlterPartitionReassignments: partitions in the assignment
+	Ctrl0        int32   `json:"ctrl0,omitempty"`  // controller-bound: the controller when the admin is created (0 = broker 1)
 	ValidateOnly bool    `json:"validate_only,omitempty"`
 	NB           int     `json:"nb,omitempty"`     // leader-bound: number of brokers
 	Spread       []int32 `json:"spread,omitempty"` // leader-bound: item i is led / coordinated by broker Spread[i]; DescribeLogDirs: the broker ids asked
@@ -145,11 +146,12 @@ func lowestSupported(op string) string {
 }
 
 func tierPlan(tier string) plan {
+	all := func(op, v string) bool { return true }
 	if tier == "thorough" {
-		return plan{retryMaxFull: []int{0, 1, 2}, retryMaxLimited: []int{5}, nonNC: 2, limitedVersions: func(op, v string) bool { return true }}
+		// Retry.Max=5: the full product 6^0+…+6^7 = 335 923 scripts per operation and version
+		return plan{retryMaxFull: []int{0, 1, 2}, retryMaxLimited: []int{5}, nonNC: -1, limitedVersions: all}
 	}
-	return plan{retryMaxFull: []int{0, 1, 2}, retryMaxLimited: []int{5}, nonNC: 1,
-		limitedVersions: func(op, v string) bool { return v == "2.4.0.0" || v == lowestSupported(op) }}
+	return plan{retryMaxFull: []int{0, 1, 2}, retryMaxLimited: []int{5}, nonNC: 2, limitedVersions: all}
 }
 
 // spreads: every function items(k) → brokers(nb), k,nb ∈ 1..3
@@ -192,36 +194,83 @@ func brokersOf(sp []int32) []int32 {
 	return out
 }
 
-func enumerate(tier string) []Case {
+// enumerator visits the case list in a fixed order; a case is materialised only if want(index).
+type enumerator struct {
+	n    int
+	want func(i int) bool
+	out  []Case
+	idx  []int
+}
+
+func (e *enumerator) add(c Case) {
+	if e.want == nil || e.want(e.n) {
+		e.out = append(e.out, c)
+		e.idx = append(e.idx, e.n)
+	}
+	e.n++
+}
+
+// wanted reports cheaply whether the next case would be kept (to skip building it).
+func (e *enumerator) wanted() bool { return e.want == nil || e.want(e.n) }
+
+var scriptCache = map[string][][]Sym{}
+
+func cachedScripts(op string, maxLen, maxNonNC int) [][]Sym {
+	k := fmt.Sprintf("%s/%d/%d", op, maxLen, maxNonNC)
+	if s, ok := scriptCache[k]; ok {
+		return s
+	}
+	s := scripts(alphabet(op), maxLen, maxNonNC)
+	scriptCache[k] = s
+	return s
+}
+
+// enumerate lists the cases of a tier; want selects which indices are materialised (nil = all).
+// It returns the kept cases, their indices and the total number of cases.
+func enumerate(tier string, want func(i int) bool) ([]Case, []int, int) {
 	pl := tierPlan(tier)
-	var cs []Case
+	e := &enumerator{want: want}
 	// ---- family ctl-script: controller-bound operations × answer scripts
 	for _, op := range ctlOps {
 		for _, v := range versions {
 			if !supported(op, v) {
 				// no request may be sent at all: scripts are irrelevant, keep the short ones
 				for _, rm := range []int{0, 1, 2, 5} {
-					for _, s := range scripts(alphabet(op), 1, -1) {
-						cs = append(cs, Case{Fam: "ctl-unsupported", Op: op, Version: v, RetryMax: rm, Script: s, NParts: 1})
+					for _, s := range cachedScripts(op, 1, -1) {
+						e.add(Case{Fam: "ctl-unsupported", Op: op, Version: v, RetryMax: rm, Script: s, NParts: 1})
 					}
 				}
 				continue
 			}
 			for _, rm := range pl.retryMaxFull {
-				for _, s := range scripts(alphabet(op), rm+2, -1) {
-					cs = append(cs, Case{Fam: "ctl-script", Op: op, Version: v, RetryMax: rm, Script: s, NParts: 1})
+				for _, c0 := range []int32{1, 2} { // which broker is controller when the admin is created (the seed is always broker 1)
+					for _, s := range cachedScripts(op, rm+2, -1) {
+						if e.wanted() {
+							e.add(Case{Fam: "ctl-script", Op: op, Version: v, RetryMax: rm, Script: s, NParts: 1, Ctrl0: c0})
+						} else {
+							e.n++
+						}
+					}
 				}
 			}
 			if pl.limitedVersions(op, v) {
 				for _, rm := range pl.retryMaxLimited {
-					for _, s := range scripts(alphabet(op), rm+2, pl.nonNC) {
-						cs = append(cs, Case{Fam: "ctl-script-limited", Op: op, Version: v, RetryMax: rm, Script: s, NParts: 1})
+					fam := "ctl-script-limited"
+					if pl.nonNC < 0 {
+						fam = "ctl-script"
+					}
+					for _, s := range cachedScripts(op, rm+2, pl.nonNC) {
+						if e.wanted() {
+							e.add(Case{Fam: fam, Op: op, Version: v, RetryMax: rm, Script: s, NParts: 1, Ctrl0: 1})
+						} else {
+							e.n++
+						}
 					}
 				}
 			}
 		}
 	}
-	// ---- family ctl-codes: every error code in place of success, at every attempt position 0..2
+	// ---- family ctl-codes: every error code in place of success, after 0..2 controller moves
 	for _, op := range ctlOps {
 		for _, v := range []string{lowestSupported(op), "2.4.0.0"} {
 			for _, code := range allCodes() {
@@ -242,7 +291,7 @@ func enumerate(tier string) []Case {
 								s = append(s, Sym{Kind: "ncm"})
 							}
 							s = append(s, Sym{Kind: "err", Code: code, Pos: pos})
-							cs = append(cs, Case{Fam: "ctl-codes", Op: op, Version: v, RetryMax: 3, Script: s, NParts: np})
+							e.add(Case{Fam: "ctl-codes", Op: op, Version: v, RetryMax: 3, Script: s, NParts: np, Ctrl0: 1})
 						}
 					}
 				}
@@ -252,19 +301,20 @@ func enumerate(tier string) []Case {
 			}
 		}
 	}
+	type spread struct {
+		nb int
+		sp []int32
+	}
 	// ---- family lead-spread: leader/coordinator/broker-bound operations × spreads × single faults
 	for _, op := range leadOps {
 		for _, v := range versions {
 			if !supported(op, v) {
 				for _, sp := range spreads(2) {
-					cs = append(cs, leadCase("lead-unsupported", op, v, sp.nb, sp.sp, Fault{}))
+					e.add(leadCase("lead-unsupported", op, v, sp.nb, sp.sp, Fault{}))
 				}
 				continue
 			}
-			var sps []struct {
-				nb int
-				sp []int32
-			}
+			var sps []spread
 			switch op {
 			case "DescribeLogDirs": // the broker ids asked: every non-empty ascending subset of 1..nb
 				for nb := 1; nb <= 3; nb++ {
@@ -275,10 +325,7 @@ func enumerate(tier string) []Case {
 								ids = append(ids, int32(b+1))
 							}
 						}
-						sps = append(sps, struct {
-							nb int
-							sp []int32
-						}{nb, ids})
+						sps = append(sps, spread{nb, ids})
 					}
 				}
 			case "ListConsumerGroupOffsets": // one group: coordinator ∈ 1..nb, 1..3 partitions asked (Spread repeats the coordinator)
@@ -289,48 +336,44 @@ func enumerate(tier string) []Case {
 							for i := range sp {
 								sp[i] = int32(c)
 							}
-							sps = append(sps, struct {
-								nb int
-								sp []int32
-							}{nb, sp})
+							sps = append(sps, spread{nb, sp})
 						}
 					}
 				}
 			case "DeleteConsumerGroup": // one group per call
 				for nb := 1; nb <= 3; nb++ {
 					for c := 1; c <= nb; c++ {
-						sps = append(sps, struct {
-							nb int
-							sp []int32
-						}{nb, []int32{int32(c)}})
+						sps = append(sps, spread{nb, []int32{int32(c)}})
 					}
 				}
 			default:
-				sps = spreads(3)
+				for _, sp := range spreads(3) {
+					sps = append(sps, spread{sp.nb, sp.sp})
+				}
 			}
 			for _, sp := range sps {
-				cs = append(cs, leadCase("lead-spread", op, v, sp.nb, sp.sp, Fault{}))
+				e.add(leadCase("lead-spread", op, v, sp.nb, sp.sp, Fault{}))
 				for i := range sp.sp {
 					if op == "DescribeLogDirs" {
 						break
 					}
 					for _, code := range reprCodes {
-						cs = append(cs, leadCase("lead-spread", op, v, sp.nb, sp.sp, Fault{Kind: "item", Item: i, Code: code}))
+						e.add(leadCase("lead-spread", op, v, sp.nb, sp.sp, Fault{Kind: "item", Item: i, Code: code}))
 					}
 				}
 				if op == "ListConsumerGroupOffsets" && !verLess(v, "0.10.2.0") {
 					for _, code := range reprCodes {
-						cs = append(cs, leadCase("lead-spread", op, v, sp.nb, sp.sp, Fault{Kind: "top", Code: code}))
+						e.add(leadCase("lead-spread", op, v, sp.nb, sp.sp, Fault{Kind: "top", Code: code}))
 					}
 				}
 				for _, b := range brokersOf(sp.sp) {
-					cs = append(cs, leadCase("lead-spread", op, v, sp.nb, sp.sp, Fault{Kind: "drop", Broker: b}))
+					e.add(leadCase("lead-spread", op, v, sp.nb, sp.sp, Fault{Kind: "drop", Broker: b}))
 					if op == "DeleteRecords" || op == "DeleteConsumerGroup" {
-						cs = append(cs, leadCase("lead-spread", op, v, sp.nb, sp.sp, Fault{Kind: "inc", Broker: b}))
+						e.add(leadCase("lead-spread", op, v, sp.nb, sp.sp, Fault{Kind: "inc", Broker: b}))
 					}
 					if op == "DescribeLogDirs" {
 						for _, code := range reprCodes {
-							cs = append(cs, leadCase("lead-spread", op, v, sp.nb, sp.sp, Fault{Kind: "item", Broker: b, Code: code}))
+							e.add(leadCase("lead-spread", op, v, sp.nb, sp.sp, Fault{Kind: "item", Broker: b, Code: code}))
 						}
 					}
 				}
@@ -343,15 +386,15 @@ func enumerate(tier string) []Case {
 		for _, code := range allCodes() {
 			switch op {
 			case "DescribeLogDirs":
-				cs = append(cs, leadCase("lead-codes", op, v, 2, []int32{1, 2}, Fault{Kind: "item", Broker: 2, Code: code}))
+				e.add(leadCase("lead-codes", op, v, 2, []int32{1, 2}, Fault{Kind: "item", Broker: 2, Code: code}))
 			case "ListConsumerGroupOffsets":
-				cs = append(cs, leadCase("lead-codes", op, v, 2, []int32{2, 2}, Fault{Kind: "item", Item: 1, Code: code}))
-				cs = append(cs, leadCase("lead-codes", op, v, 2, []int32{2, 2}, Fault{Kind: "top", Code: code}))
+				e.add(leadCase("lead-codes", op, v, 2, []int32{2, 2}, Fault{Kind: "item", Item: 1, Code: code}))
+				e.add(leadCase("lead-codes", op, v, 2, []int32{2, 2}, Fault{Kind: "top", Code: code}))
 			case "DeleteConsumerGroup":
-				cs = append(cs, leadCase("lead-codes", op, v, 2, []int32{2}, Fault{Kind: "item", Item: 0, Code: code}))
+				e.add(leadCase("lead-codes", op, v, 2, []int32{2}, Fault{Kind: "item", Item: 0, Code: code}))
 			default:
-				cs = append(cs, leadCase("lead-codes", op, v, 2, []int32{1, 2}, Fault{Kind: "item", Item: 1, Code: code}))
-				cs = append(cs, leadCase("lead-codes", op, v, 1, []int32{1}, Fault{Kind: "item", Item: 0, Code: code}))
+				e.add(leadCase("lead-codes", op, v, 2, []int32{1, 2}, Fault{Kind: "item", Item: 1, Code: code}))
+				e.add(leadCase("lead-codes", op, v, 1, []int32{1}, Fault{Kind: "item", Item: 0, Code: code}))
 			}
 		}
 	}
@@ -359,11 +402,11 @@ func enumerate(tier string) []Case {
 	for _, op := range []string{"CreateTopic", "CreatePartitions"} {
 		for _, v := range versions {
 			if supported(op, v) {
-				cs = append(cs, Case{Fam: "content", Op: op, Version: v, RetryMax: 2, NParts: 1, ValidateOnly: true})
+				e.add(Case{Fam: "content", Op: op, Version: v, RetryMax: 2, NParts: 1, ValidateOnly: true, Ctrl0: 1})
 			}
 		}
 	}
-	return cs
+	return e.out, e.idx, e.n
 }
 
 func leadCase(fam, op, v string, nb int, sp []int32, f Fault) Case {
